@@ -535,7 +535,8 @@ def judge(before, op, expect, after_model, feats, raised, obs, stage):
             # (a mask that keeps nothing, or an empty mask on an object without elements, may be
             # refused: the statement only asks that a failed operation leaves things consistent)
             # a masked copy with a well-formed boolean mask of the right length is not a legitimate refusal
-            out.append(("masked-copy-yields-selection", f"{head} raised {raised}", {"op": op, "input": geo_feats}))
+            one = " [one-element mask]" if len(op[1]) == 1 else ""
+            out.append(("masked-copy-yields-selection", f"{head} raised {raised}{one}", {"op": op, "input": geo_feats}))
         # "an operation that fails leaves geometry and data mutually consistent"
         detail = [dict(d, clause=c, what=w) for c, w, d in inv if "unreadable" not in w]
         # a cell that is still there must connect coordinates it connected before
